@@ -268,7 +268,9 @@ func c20SeenByClient(resp []byte) (status int, loc []byte, ok bool) {
 type c20Cfg struct {
 	entry   byte // 'D' DoRedirects, 'G' Get, 'P' Post
 	maxR    int
-	body    byte // '0' none, '1' bytes, '2' stream of unknown size, '3' post args
+	// '0' none, '1' SetBodyString, '2' SetBodyStream of unknown size, '3' PostArgs, '4' SetBodyRaw, '5' SetBody,
+	// '6' AppendBody (twice), '7' BodyWriter, '8' multipart/form-data body parsed into Request.MultipartForm
+	body byte
 	noNorm  bool
 	method  string
 	url     string
@@ -290,7 +292,7 @@ func c20Decode(a [][]byte) *c20Cfg {
 		return nil
 	}
 	c := &c20Cfg{entry: f[0][0], maxR: m, body: f[2][0], noNorm: f[3] == "1", method: string(a[1]), url: string(a[2])}
-	if !strings.ContainsRune("DGP", rune(c.entry)) || !strings.ContainsRune("0123", rune(c.body)) || c.method == "" {
+	if !strings.ContainsRune("DGP", rune(c.entry)) || !strings.ContainsRune("012345678", rune(c.body)) || c.method == "" {
 		return nil
 	}
 	for _, ln := range strings.Split(string(a[3]), "\n") {
@@ -337,6 +339,21 @@ func c20BuildRequest(c *c20Cfg) *fasthttp.Request {
 		req.SetBodyStream(&c20Stream{strings.NewReader("streamed-payload")}, -1)
 	case '3':
 		req.PostArgs().Set("k", "v")
+	case '4':
+		req.SetBodyRaw([]byte("raw-payload-bytes"))
+	case '5':
+		req.SetBody([]byte("set-payload-bytes"))
+	case '6':
+		req.AppendBody([]byte("appended-"))
+		req.AppendBody([]byte("payload"))
+	case '7':
+		io.WriteString(req.BodyWriter(), "written-payload")
+	case '8':
+		req.Header.SetContentType("multipart/form-data; boundary=c20bnd")
+		req.SetBodyString("--c20bnd\r\nContent-Disposition: form-data; name=\"k\"\r\n\r\nform-payload\r\n--c20bnd--\r\n")
+		if _, err := req.MultipartForm(); err != nil {
+			panic("c20: multipart form does not parse: " + err.Error())
+		}
 	}
 	return req
 }
@@ -433,8 +450,17 @@ func c20Chain(a [][]byte) *Case {
 		initNames = []string{"Content-Type"}
 	}
 	mb := body
-	if mb == '3' {
+	if mb >= '3' { // every representation of a sized body is "bytes" to the model
 		mb = '1'
+	}
+	if body == '8' && c.entry == 'D' {
+		hasCT := false
+		for _, n := range initNames {
+			hasCT = hasCT || strings.EqualFold(n, "Content-Type")
+		}
+		if !hasCT {
+			initNames = append(initNames, "Content-Type")
+		}
 	}
 	anchor := fasthttp.VerifHostnameFromURLString(url0)
 	loopArgs := [][]byte{N(maxR), anchor, B(method), {mb}, N(len(initNames))}
@@ -560,7 +586,7 @@ func init() {
 	Register(&Prop{
 		ID: "C20",
 		Rule: "chain: a fresh Client on a fake multi-host network (Dial keyed by address, every request recorded with its address) follows a scripted chain: " +
-			"entry DoRedirects/Get/Post x maxRedirectsCount x method x body kind (none, bytes, unknown-size stream, post args) x caller headers (six sensitive names, Content-Type, Trailer, other; " +
+			"entry DoRedirects/Get/Post x maxRedirectsCount x method x body set through every body API (none, SetBodyString, SetBody, SetBodyRaw, AppendBody, BodyWriter, unknown-size SetBodyStream, PostArgs, parsed multipart form) x caller headers (six sensitive names, Content-Type, Trailer, other; " +
 			"canonical or, with DisableNormalizing, any spelling) x 1..20 hops of (status 301/302/303/307/308/other, Location form: absolute, //host, /path, relative, ?q, #f, userinfo, ports, IPv6, mixed case, trailing dot, look-alikes, non-ASCII look-alikes, empty host, mutated); " +
 			"unit kinds: trust(anchor, hostport), split(hostport), hostname(url), parse(url), url(base, location) on the exported helpers; " +
 			"non-trivial = a chain in which at least two requests were sent / a unit input containing a separator byte; distinct = distinct input",
@@ -773,7 +799,7 @@ func c20Gen(r *Rand, tier string, emit func(string, ...[]byte)) {
 			entry = "P"
 		}
 		maxR := []int{16, 16, 5, 3, 2, 1, 0, -1, 20}[r.Intn(9)]
-		body := "0113"[r.Intn(4)]
+		body := "0011345678"[r.Intn(10)] // every body API: see c20Cfg.body
 		if r.Chance(8) {
 			body = '2'
 		}
